@@ -29,6 +29,7 @@ type PartialFamily struct {
 	UndoAs   string // when set, states reached through an Undo report their clauses under this property (C06)
 	ArgRev   bool   // blocks, Verify(remember), Ingest, Prune and Undo get their targets / hashes in descending order
 	Alloc    bool   // Verify(remember) is given its targets in the coordinates of the allocated height (documented as accepted)
+	ProofOnly bool  // only the prover clauses of the oracle are reported (C02 reuses the family for partial forests that prune)
 	Bad      bool   // after every operation the instance also receives calls that must change nothing: rejected
 	// Verify(remember) / VerifyPartialProof(remember) (wrong leaf hash, wrong proof hash) and Prune of hashes it does not cache
 	FullFR   bool   // the "fromroots" transition creates a FULL map forest (NewMapPollardFromRoots(..., true)); the
@@ -333,6 +334,10 @@ func (f *PartialFamily) rejectedCalls(x *Exec, name string, m *u.MapPollard, md 
 	return true
 }
 
+// proofAnyway: the prover clauses are evaluated even when a storage clause already failed (set by families that
+// report the prover clauses only).
+func proofAnyway(x *Exec) bool { return x.ProofAnyway }
+
 // checkPartial is the C09 oracle on one state.
 func checkPartial(x *Exec, prop string, m *u.MapPollard, md *partModel, lastOp Op) int64 {
 	var evals int64 = 1
@@ -451,7 +456,7 @@ func checkPartial(x *Exec, prop string, m *u.MapPollard, md *partModel, lastOp O
 			bad = true
 		}
 	}
-	if bad {
+	if bad && !proofAnyway(x) {
 		return evals
 	}
 	os := sortedKeys(obs)
@@ -496,6 +501,7 @@ func (f *PartialFamily) Step(n *Node, op Op) StepResult {
 		xp = f.Collect
 	}
 	x := NewExec(xp, func() Case { return mkCase("partial", partPayload{Fam: *f, Hist: hist}) })
+	x.ProofAnyway = f.ProofOnly
 	m, md, ok := f.run(x, hist)
 	res := StepResult{}
 	if ok {
@@ -507,6 +513,18 @@ func (f *PartialFamily) Step(n *Node, op Op) StepResult {
 	}
 	x.CheckHeld()
 	res.Viol = x.Viol
+	if f.ProofOnly {
+		res.Viol = nil
+		for _, v := range x.Viol {
+			if strings.HasPrefix(v.Sig, "a remembered leaf set cannot be proven") || strings.HasPrefix(v.Sig, "proof of a remembered leaf set is not the canonical one") {
+				res.Viol = append(res.Viol, v)
+			}
+		}
+		if len(res.Viol) == 0 && len(x.Viol) > 0 {
+			res.Terminal = true // another property's clause failed: the path ends, the owner reports it
+			return res
+		}
+	}
 	res.Notes = x.Notes
 	res.Nontriv = md.s.NumLive() < md.s.N() || md.hasUndo
 	if !ok || len(x.Viol) > 0 {
@@ -784,6 +802,7 @@ func init() {
 		}
 		f := p.Fam
 		x := NewExec(prop, func() Case { return Case{Engine: "partial", Payload: payload} })
+		x.ProofAnyway = f.ProofOnly
 		m, md, ok := f.run(x, p.Hist)
 		if ok && len(p.Hist) > 0 {
 			checkPartial(x, f.Prop, m, md, p.Hist[len(p.Hist)-1])
